@@ -135,7 +135,43 @@ Theorem middleware_html_is_spec : forall c r,
 Proof. exact middleware_html_lemma. Qed.
 Print Assumptions middleware_html_is_spec.
 
+(* 10. WHAT is removed.  For every text: it is cut, left to right, into kept symbols and spans of the documented marker
+       grammar (<!--, ASCII white space, _RENDERED, white space, data without white space and '>', white space, -->);
+       erase_markers keeps exactly the kept symbols, harvest returns exactly the data of the spans, and a symbol is kept
+       only where no marker starts (leftmost-first, non-overlapping - one pass, as re.sub). *)
+Theorem removed_are_markers : forall d,
+  exists l, parts_of is_marker d l /\ erase_markers d = lits l /\ harvest d = toks l.
+Proof. exact removed_are_markers_lemma. Qed.
+Print Assumptions removed_are_markers.
+
+(* 11. ... and the same for placeholders: the spans removed / replaced are exactly the
+       <link name="CSS_PLACEHOLDER"[ data-djc-css-XXXXXX=""]( data-djc-id-XXXXXX="")*[/]>  and
+       <script name="JS_PLACEHOLDER"[ data-djc-css-XXXXXX=""]( data-djc-id-XXXXXX="")*></script>  spans, leftmost-first. *)
+Theorem removed_are_placeholders : forall t,
+  exists l, parts_of is_placeholder t l /\ erase_ph t = lits l /\ ph_tokens t = l.
+Proof. exact removed_are_placeholders_lemma. Qed.
+Print Assumptions removed_are_placeholders.
+
 (* ---------- non-vacuity ---------- *)
+(* the grammar predicates are inhabited by what the library emits *)
+Example marker_grammar_inhabited :
+  is_marker (s2n "<!-- _RENDERED table_10bac3,a1b2c3,a92ef2,bd002c -->") (s2n "table_10bac3,a1b2c3,a92ef2,bd002c").
+Proof.
+  exists [32%N], [32%N], [32%N]. unfold blank.
+  repeat split; try discriminate; repeat constructor.
+Qed.
+
+Example placeholder_grammar_inhabited :
+  is_placeholder (s2n "<link name=""CSS_PLACEHOLDER"" data-djc-id-a1b2c3=""""/>") KCss /\
+  is_placeholder (s2n "<script name=""JS_PLACEHOLDER""></script>") KJs.
+Proof.
+  split.
+  - exists [], (s2n " data-djc-id-a1b2c3=""""" ++ []). split; [now left|]. split.
+    + constructor; [|constructor]. exists (s2n "a1b2c3"). repeat split. repeat constructor.
+    + exists [47%N]. split; [now right|reflexivity].
+  - exists [], []. split; [now left|]. split; [constructor|reflexivity].
+Qed.
+
 (* a realistic page: CSS at its placeholder, JS before </body > (whitespace variant), marker removed *)
 Example realistic_page :
   let js := s2n "<script src=""x.js""></script><script>console.log('A');</script>" in
